@@ -394,6 +394,24 @@ class Evaluator:
             if isinstance(s.value, ast.Constant):
                 return
             if isinstance(s.value, ast.Call):
+                c0 = s.value
+                if (isinstance(c0.func, ast.Attribute) and c0.func.attr in ("update", "extend") and len(c0.args) == 1 and not c0.keywords
+                        and isinstance(c0.args[0], (ast.GeneratorExp, ast.ListComp)) and not (c0.func.attr == "update" and isinstance(c0.args[0].elt, ast.Tuple))):
+                    # S.update(e for x in it if c) / L.extend(...)  ==  for x in it: if c: S.add(e) / L.append(e)
+                    key = id(s)
+                    if key not in _YF:
+                        comp = c0.args[0]
+                        one = "add" if c0.func.attr == "update" else "append"
+                        body = [ast.Expr(value=ast.Call(func=ast.Attribute(value=c0.func.value, attr=one, ctx=ast.Load()), args=[comp.elt], keywords=[]))]
+                        for g in reversed(comp.generators):
+                            if g.ifs:
+                                body = [ast.If(test=g.ifs[0] if len(g.ifs) == 1 else ast.BoolOp(op=ast.And(), values=list(g.ifs)), body=body, orelse=[])]
+                            body = [ast.For(target=g.target, iter=g.iter, body=body, orelse=[])]
+                        loop = body[0]
+                        ast.fix_missing_locations(ast.copy_location(loop, s))
+                        _YF[key] = (s, loop)
+                    self.loop(_YF[key][1], st)
+                    return
                 self.call(s.value, st, as_stmt=True)
                 return
             if isinstance(s.value, ast.YieldFrom) and isinstance(s.value.value, (ast.GeneratorExp, ast.ListComp)) and len(s.value.value.generators) == 1:
@@ -426,6 +444,10 @@ class Evaluator:
             cur = self.ev(s.target, st)
             v = self.ev(s.value, st)
             new = Sym(f"({vtext(cur)} {type(s.op).__name__} {vtext(v)})")
+            if isinstance(s.op, ast.Add) and (isinstance(cur, str) or _is_f(cur) or isinstance(v, str) or _is_f(v)) and not (isinstance(cur, str) and isinstance(v, str)):
+                lp, rp = _fparts(cur), _fparts(v)
+                if lp is not None and rp is not None:
+                    new = _fstring(lp + rp, s)  # text += piece  is  text + piece
             if isinstance(s.op, ast.Add) and isinstance(cur, list):
                 new = cur + (v if isinstance(v, list) else [Sym("*" + vtext(v))])
             elif isinstance(cur, (int, float)) and isinstance(v, (int, float)) and not isinstance(cur, bool):
@@ -513,6 +535,18 @@ class Evaluator:
         k = self.hooks.unroll
         if isinstance(s, ast.For):
             d = _desugar_filtered_loop(s)
+            if d is None and isinstance(s.iter, ast.Name):
+                v0 = st.env.get(s.iter.id)
+                if isinstance(v0, Sym) and v0.tag and v0.tag[0] == "comp" and len(v0.tag) == 3 and isinstance(v0.tag[1], (ast.ListComp, ast.GeneratorExp)):
+                    # `xs = [e for n in it if c]` ... `for x in xs:` with nothing the comprehension reads changed in between
+                    snap = v0.tag[2]
+                    if all(vtext(st.env.get(k, NOTHING)) == t for k, t in snap.items()):
+                        key = (id(s), id(v0.tag[1]))
+                        if key not in _DESUGARED:
+                            s2 = ast.For(target=s.target, iter=v0.tag[1], body=s.body, orelse=s.orelse)
+                            ast.copy_location(s2, s)
+                            _DESUGARED[key] = (s, _desugar_filtered_loop(s2))
+                        d = _DESUGARED[key][1]
             if d is not None:
                 s = d
             it = self.ev(s.iter, st)
@@ -527,40 +561,51 @@ class Evaluator:
                 if mm:
                     part = 1 if mm.group(2) == "values" else 0
                     ittext = f"{mm.group(1)}.items(){mm.group(3) or ''}"
+            if part is None and concrete is None and isinstance(s.iter, (ast.Name, ast.Attribute, ast.Subscript)) and isinstance(s.target, ast.Name) and isinstance(it, Sym):
+                # `for k in d:` where the body reads d[k]: d is a mapping and the loop visits its keys (= `for k in d.keys():`)
+                it_src = u(s.iter)
+                if any(isinstance(n, ast.Subscript) and u(n.value) == it_src and isinstance(n.slice, ast.Name) and n.slice.id == s.target.id for b in s.body for n in ast.walk(b)):
+                    part = 0
+                    ittext = f"{ittext}.items()"
             st.counter += 1
             lid = f"{ittext}#L{st.counter}"
             i = 0
             broke = False
-            star = None
-            if concrete is not None and concrete and isinstance(concrete[-1], Sym) and concrete[-1].text.startswith("*") and not any(
-                isinstance(x, Sym) and x.text.startswith("*") for x in concrete[:-1]
-            ):
-                star = concrete[-1].text[1:]
-                concrete = concrete[:-1]
-            j = 0
-            while True:
-                if concrete is not None and i < len(concrete):
-                    item = concrete[i]
-                elif concrete is not None and star is None:
-                    break
-                elif concrete is not None:
-                    if j >= k:
-                        st.effect("loop-bound", star)
-                        break
-                    if not st.atom(f"more({star}#L{st.counter},{j})"):
-                        break
-                    item = Sym(f"{star}[{j}]", tag=("item", star, j))
-                    j += 1
-                else:
-                    if i >= k:
+            lc = st.counter
+
+            def items():
+                if concrete is not None:
+                    # a list known element by element; `*xs` elements stand for the (unknown many) elements of xs
+                    for x in concrete:
+                        if isinstance(x, Sym) and x.text.startswith("*"):
+                            star = x.text[1:]
+                            j = 0
+                            while True:
+                                if j >= k:
+                                    st.effect("loop-bound", star)
+                                    break
+                                if not st.atom(f"more({star}#L{lc},{j})"):
+                                    break
+                                yield Sym(f"{star}[{j}]", tag=("item", star, j))
+                                j += 1
+                        else:
+                            yield x
+                    return
+                n = 0
+                while True:
+                    if n >= k:
                         # bound reached: assume exhausted (paths needing more are cut)
                         st.effect("loop-bound", ittext)
-                        break
-                    if not st.atom(f"more({lid},{i})"):
-                        break
-                    item = Sym(f"{ittext}[{i}]", tag=("item", ittext, i))
+                        return
+                    if not st.atom(f"more({lid},{n})"):
+                        return
                     if part is not None:
-                        item = Sym(f"{ittext}[{i}][{part}]", tag=("item", ittext, i))
+                        yield Sym(f"{ittext}[{n}][{part}]", tag=("item", ittext, n))
+                    else:
+                        yield Sym(f"{ittext}[{n}]", tag=("item", ittext, n))
+                    n += 1
+
+            for item in items():
                 self.assign(s.target, item, st)
                 try:
                     self.block(s.body, st)
@@ -569,7 +614,6 @@ class Evaluator:
                     break
                 except _Continue:
                     pass
-                i += 1
             if not broke:
                 self.block(s.orelse, st)
             return
@@ -885,7 +929,9 @@ class Evaluator:
         if isinstance(e, ast.Lambda):
             return Sym("lambda:" + self.closure_text(e, st))
         if isinstance(e, (ast.ListComp, ast.SetComp, ast.GeneratorExp, ast.DictComp)):
-            return Sym("comp:" + self.closure_text(e, st), tag=("comp", e))
+            free = {n.id for n in ast.walk(e) if isinstance(n, ast.Name) and isinstance(n.ctx, ast.Load)}
+            snap = {k: vtext(st.env[k]) for k in free if k in st.env}
+            return Sym("comp:" + self.closure_text(e, st), tag=("comp", e, snap))
         if isinstance(e, ast.Dict):
             members = None
             if e.keys and all(isinstance(k, ast.Constant) for k in e.keys):
@@ -942,6 +988,13 @@ class Evaluator:
             sep = self.ev(c.func.value, st)
             if isinstance(sep, str) and isinstance(args[0], (list, tuple)) and all(isinstance(x, str) for x in args[0]):
                 return sep.join(args[0])  # constant folding of "sep".join([...constants...])
+            if isinstance(sep, str) and isinstance(args[0], (list, tuple)) and args[0] and all(isinstance(x, str) or _is_f(x) for x in args[0]):
+                parts = []
+                for i, x in enumerate(args[0]):
+                    if i and sep:
+                        parts.append(("lit", sep))
+                    parts.extend(_fparts(x))
+                return _fstring(parts, c)  # joining pieces of text is concatenating them
         if ftext in ("any", "all") and len(c.args) == 1 and not kwargs and isinstance(c.args[0], (ast.GeneratorExp, ast.ListComp)):
             g = c.args[0]
             if isinstance(g.elt, ast.UnaryOp) and isinstance(g.elt.op, ast.Not):
@@ -995,6 +1048,8 @@ class Evaluator:
                 st.mem[tt] = val
             st.bump(_base(recv))
             return None
+        if ftext == "list" and len(args) == 1 and not kwargs and isinstance(args[0], Sym) and not isinstance(c.args[0], (ast.GeneratorExp, ast.Call)) and not args[0].text.startswith(("comp:", "*")):
+            return [Sym("*" + args[0].text)]  # a fresh list holding the elements of xs
         if ftext == "list" and len(c.args) == 1 and not kwargs:
             a0 = c.args[0]
             if isinstance(a0, ast.GeneratorExp):
